@@ -338,17 +338,36 @@ pub struct ECase {
     pub field: String,
     pub n: usize,
     pub k: usize,
+    /// degree of the single transition constraint of the context (1 when absent: cases saved earlier)
+    #[serde(default = "one")]
+    pub degree: usize,
+}
+fn one() -> usize {
+    1
+}
+
+/// the documented third bound: the quotient of a degree-d constraint by the divisor with k exemptions has degree
+/// d(n-1) - (n-k), which must stay below the constraint evaluation domain n * max(2, next_pow2(d-1))
+fn max_exemptions_by_degree(n: usize, d: usize) -> usize {
+    let ce_blowup = (d.max(1) - 1).max(2).next_power_of_two();
+    (n * ce_blowup - 1 + n).saturating_sub(d * (n - 1))
 }
 
 fn check_exemption_bounds<B: FA>(c: &ECase, obs: &mut Obs) -> CheckResult {
     let (n, k) = (c.n, c.k);
     obs.nontrivial();
-    let r = catch(|| context::<B>(n, 1).set_num_transition_exemptions(k).num_transition_exemptions());
-    let ok = k >= 1 && k <= n / 2 + 1;
+    let d = c.degree;
+    let r = catch(|| {
+        AirContext::<B>::new(TraceInfo::new(WIDTH, n), vec![TransitionConstraintDegree::new(d)], 1, ProofOptions::new(32, 8, 0, FieldExtension::None, 4, 31))
+            .set_num_transition_exemptions(k)
+            .num_transition_exemptions()
+    });
+    let ok = k >= 1 && k <= n / 2 + 1 && k <= max_exemptions_by_degree(n, d);
     obs.label(if ok { "accepted" } else { "refused" });
+    obs.label(if k >= 1 && k <= n / 2 + 1 && !ok { "refused:by-constraint-degree".to_string() } else { format!("degree={d}") });
     match r {
         Ok(v) => {
-            ensure!(ok, "out-of-range-exemptions-accepted", "n={n}: {k} exemptions accepted (documented range 1..=n/2+1)");
+            ensure!(ok, "out-of-range-exemptions-accepted", "n={n}, constraint degree {d}: {k} exemptions accepted (documented: 1..=n/2+1 and small enough for the composition polynomial to fit the constraint evaluation domain, here at most {})", max_exemptions_by_degree(n, d));
             ensure!(v == k, "context/exemptions", "n={n}: context reports {v} after setting {k}");
         },
         Err(p) => {
@@ -901,7 +920,17 @@ pub fn run(run: &mut Run) {
                 tc.push(TCase { field: f.to_string(), n, k });
             }
             for k in [0, 1, n / 2 + 1, n / 2 + 2, n - 1, n, n + 1] {
-                ec.push(ECase { field: f.to_string(), n, k });
+                ec.push(ECase { field: f.to_string(), n, k, degree: 1 });
+            }
+            // constraint degrees 2..9 (blowup 8 admits them all): around the bound the degree imposes
+            for degree in 2..=9usize {
+                let m = max_exemptions_by_degree(n, degree);
+                let mut ks = vec![1, 2, n / 2, n / 2 + 1, n / 2 + 2, m.saturating_sub(1), m, m + 1, m + 2];
+                ks.sort();
+                ks.dedup();
+                for k in ks {
+                    ec.push(ECase { field: f.to_string(), n, k, degree });
+                }
             }
         }
     }
@@ -914,7 +943,7 @@ pub fn run(run: &mut Run) {
     );
     run.enumerate(
         "exemption-bounds",
-        "set_num_transition_exemptions at and around the documented bounds (0, 1, n/2+1, n/2+2, n-1, n, n+1) for every n and field: accepted iff 1 <= k <= n/2+1 (documented panics otherwise)",
+        "set_num_transition_exemptions at and around the documented bounds (0, 1, n/2+1, n/2+2, n-1, n, n+1) for every n and field, and for constraint degrees 2..9 around the bound the degree imposes (quotient degree d(n-1) - (n-k) below the constraint evaluation domain): accepted iff 1 <= k <= n/2+1 and within that bound (documented panics otherwise)",
         true,
         ec.into_iter(),
         |c: &ECase, obs: &mut Obs| with_field!(c.field.as_str(), B => check_exemption_bounds::<B>(c, obs)),
